@@ -3,10 +3,9 @@
     Main results
       [fen_total]            setup never panics, for ALL byte strings
       [fen_wellformed]       what an accepted string guarantees ([fpos_wf])
-      [fen_reparse_weak]     fen() of any well-formed position is accepted again and gives
-                             the same position up to nextHalfMoveNumber ([renorm])
-      [fen_reparse]          ... exactly the same position under [reparse_guard]
-      [fen_reparse_guard_necessary], [fen_reparse_refuted]   the guard is needed
+      [fen_reparse_wf]       fen() of any well-formed position is accepted again and gives
+                             the same position
+      [fen_reparse]          ... in particular for every accepted string (no guard)
       [fen_roundtrip_legal]  every legal position's FEN round-trips exactly            *)
 From Coq Require Import NArith ZArith List Bool Lia ZifyN ZifyBool.
 From FG Require Import Geom Rules FenSpec Oracle FenImpl.
@@ -16,6 +15,9 @@ Open Scope N_scope.
 Ltac Zify.zify_post_hook ::= Z.to_euclidean_division_equations.
 
 Lemma some_inj {A} (a b : A) : Some a = Some b -> a = b.
+Proof. congruence. Qed.
+
+Lemma inr_inj {A B} (a b : B) : @inr A B a = inr b -> a = b.
 Proof. congruence. Qed.
 
 (** ** lists *)
@@ -153,14 +155,14 @@ Proof.
   destruct (nth_error (p0 :: rest) 3) as [es|].
   - destruct (ep_square es) as [e|sq] eqn:Esq; [discriminate|].
     destruct (sq =? 64) eqn:E64.
-    + destruct (hmc_field _); [|discriminate]. destruct (mn_field _ _ _); [|discriminate].
+    + destruct (hmc_field _); [discriminate|]. destruct (mn_field _ _ _); [discriminate|].
       destruct (is_attacked_spec _ _ _); discriminate.
     + apply N.eqb_neq in E64. apply ep_square_range in Esq as [?|[Hlt _]]; [contradiction|].
       pose proof (ep_fit_inv sq side b Hl Hlt) as Hfit.
       destruct (ep_fit sq side b); [|discriminate|contradiction].
-      destruct (hmc_field _); [|discriminate]. destruct (mn_field _ _ _); [|discriminate].
+      destruct (hmc_field _); [discriminate|]. destruct (mn_field _ _ _); [discriminate|].
       destruct (is_attacked_spec _ _ _); discriminate.
-  - destruct (hmc_field _); [|discriminate]. destruct (mn_field _ _ _); [|discriminate].
+  - destruct (hmc_field _); [discriminate|]. destruct (mn_field _ _ _); [discriminate|].
     destruct (is_attacked_spec _ _ _); discriminate.
 Qed.
 
@@ -219,14 +221,22 @@ Proof.
   destruct (cr_regex s); [|discriminate]. intros H; injection H as <-. apply cr_fold_lt. lia.
 Qed.
 
-Lemma mn_field_ok o side nhm : side < 2 -> mn_field o side (if side =? 1 then 2%Z else 1%Z) = Some nhm ->
-  in_int64 nhm = true /\ ((nhm + Z.of_N side) mod 2 = 1)%Z.
+Lemma mn_field_ok o side nhm : side < 2 -> mn_field o side (if side =? 1 then 2%Z else 1%Z) = inr nhm ->
+  (1 <= nhm <= 2 * max_move_number)%Z /\ ((nhm + Z.of_N side) mod 2 = 1)%Z.
 Proof.
-  intros Hs. unfold mn_field. destruct o as [s|].
-  - destruct (atoi s) as [m|]; [|discriminate]. intros H; apply some_inj in H; subst nhm.
-    split; [apply wrap64_range|]. unfold wrap64, two63, two64.
-    destruct (m =? 0)%Z; lia.
-  - intros H; injection H as <-. assert (side = 0 \/ side = 1) as [->| ->] by lia; now split.
+  intros Hs. unfold mn_field, max_move_number. destruct o as [s|].
+  - destruct (atoi s) as [m|]; [|discriminate].
+    destruct ((m <? 0)%Z || (1000000 <? m)%Z) eqn:Er; [discriminate|].
+    intros H. apply inr_inj in H. destruct (m =? 0)%Z eqn:E0; lia.
+  - intros H. apply inr_inj in H. assert (side = 0 \/ side = 1) as [E|E] by lia; rewrite E in *; cbn [N.eqb Pos.eqb Z.of_N] in H; lia.
+Qed.
+
+Lemma hmc_field_ok o hmc : hmc_field o = inr hmc -> (0 <= hmc < two63)%Z.
+Proof.
+  unfold hmc_field. destruct o as [s|].
+  - destruct (atoi s) as [v|] eqn:Ea; [|discriminate]. apply atoi_range in Ea. unfold in_int64 in Ea.
+    destruct (v <? 0)%Z eqn:E0; [discriminate|]. intros H. apply inr_inj in H. unfold two63 in *. lia.
+  - intros H. apply inr_inj in H. unfold two63. lia.
 Qed.
 
 Lemma ep_field_wf o side b e cr hmc nhm : length b = 64%nat -> ep_field o side b = EOk e ->
@@ -257,20 +267,19 @@ Proof.
   destruct (side_field _) as [side|] eqn:Eside; [|discriminate]. apply side_field_lt in Eside.
   destruct (cr_field _) as [cr|] eqn:Ecr; [|discriminate]. apply cr_field_lt in Ecr.
   destruct (ep_field _ _ _) as [ep|x|] eqn:Eep; [|discriminate|discriminate].
-  destruct (hmc_field _) as [hmc|] eqn:Ehmc; [|discriminate].
-  destruct (mn_field _ _ _) as [nhm|] eqn:Emn; [|discriminate].
+  destruct (hmc_field _) as [x|hmc] eqn:Ehmc; [discriminate|].
+  destruct (mn_field _ _ _) as [x|nhm] eqn:Emn; [discriminate|].
   destruct (is_attacked_spec _ _ _) eqn:Eatt; [discriminate|].
   intros H; injection H as <-.
   apply (mn_field_ok _ _ _ Eside) in Emn as [Hnhm Hpar].
-  assert (Hhmc : in_int64 hmc = true).
-  { unfold hmc_field in Ehmc. destruct (nth_error (p0 :: rest) 4).
-    - eapply atoi_range; eauto.
-    - injection Ehmc as <-. reflexivity. }
+  apply hmc_field_ok in Ehmc.
   unfold fpos_wf, not_in_check. cbn [f_board f_side f_cr f_ep f_hmc f_nhm].
-  rewrite Hl, Hc, Ek1, Ek9, (ep_field_wf _ _ _ _ cr hmc nhm Hl Eep), Hhmc, Hnhm, Eatt.
+  rewrite Hl, Hc, Ek1, Ek9, (ep_field_wf _ _ _ _ cr hmc nhm Hl Eep), Eatt.
   replace (side <? 2) with true by (symmetry; now apply N.ltb_lt).
   replace (cr <? 16) with true by (symmetry; now apply N.ltb_lt).
   replace ((nhm + Z.of_N side) mod 2 =? 1)%Z with true by (symmetry; now apply Z.eqb_eq).
+  replace (0 <=? hmc)%Z with true by lia. replace (hmc <? two63)%Z with true by lia.
+  replace (1 <=? nhm)%Z with true by lia. replace (nhm <=? 2 * max_move_number)%Z with true by lia.
   reflexivity.
 Qed.
 
@@ -279,7 +288,7 @@ Lemma fpos_wf_inv p : fpos_wf p = true ->
   length (f_board p) = 64%nat /\ forallb cell_ok (f_board p) = true /\
   count_code (f_board p) 1 = 1%nat /\ count_code (f_board p) 9 = 1%nat /\
   f_side p < 2 /\ f_cr p < 16 /\ ep_wf p = true /\
-  in_int64 (f_hmc p) = true /\ in_int64 (f_nhm p) = true /\
+  (0 <= f_hmc p < two63)%Z /\ (1 <= f_nhm p <= 2 * max_move_number)%Z /\
   ((f_nhm p + Z.of_N (f_side p)) mod 2 = 1)%Z /\ not_in_check p = true.
 Proof.
   unfold fpos_wf. intros H.
@@ -289,6 +298,8 @@ Proof.
          | H : Nat.eqb _ _ = true |- _ => apply Nat.eqb_eq in H
          | H : (_ <? _) = true |- _ => apply N.ltb_lt in H
          | H : (_ =? _)%Z = true |- _ => apply Z.eqb_eq in H
+         | H : (_ <=? _)%Z = true |- _ => apply Z.leb_le in H
+         | H : (_ <? _)%Z = true |- _ => apply Z.ltb_lt in H
          end.
   repeat split; assumption.
 Qed.
@@ -301,22 +312,19 @@ Corollary fen_wellformed_spelled : forall s p, setup s = Ok p ->
   (f_ep p = 64 \/
    (f_ep p < 64 /\ f_ep p / 8 = (if f_side p =? 0 then 5 else 2) /\ at_ (f_board p) (f_ep p) = 0 /\
     at_ (f_board p) (if f_side p =? 0 then f_ep p - 8 else f_ep p + 8) = 8 * (1 - f_side p) + 2)) /\
-  (- two63 <= f_hmc p < two63)%Z /\ (- two63 <= f_nhm p < two63)%Z /\
+  (0 <= f_hmc p < two63)%Z /\ (1 <= f_nhm p <= 2000000)%Z /\
   ((f_nhm p + Z.of_N (f_side p)) mod 2 = 1)%Z /\
   is_attacked_spec (mkpos (f_board p) (f_side p) (f_cr p) (f_ep p) 0 0)
                    (king_sq (f_board p) (1 - f_side p)) (f_side p) = false.
 Proof.
   intros s p H. apply fen_wellformed in H. apply fpos_wf_inv in H.
   destruct H as (Hl & Hc & Hk1 & Hk9 & Hs & Hcr & Hep & Hh & Hn & Hpar & Hchk).
-  repeat split; try assumption.
+  unfold max_move_number in Hn.
+  repeat split; try assumption; try lia.
   - intros pc Hin. rewrite forallb_forall in Hc. specialize (Hc pc Hin). unfold cell_ok, valid_code in Hc. lia.
   - unfold ep_wf in Hep. apply orb_true_iff in Hep as [He|He]; [left; now apply N.eqb_eq|right].
     repeat (apply andb_true_iff in He as [He ?]).
     rewrite <- shiftr3. repeat split; try (now apply N.eqb_eq); now apply N.ltb_lt.
-  - unfold in_int64 in Hh. lia.
-  - unfold in_int64 in Hh. lia.
-  - unfold in_int64 in Hn. lia.
-  - unfold in_int64 in Hn. lia.
   - unfold not_in_check in Hchk. now apply negb_true_iff in Hchk.
 Qed.
 
@@ -716,10 +724,11 @@ Proof. unfold in_int64, move_number, wrap64, two63, two64. lia. Qed.
 
 (** ** fen() followed by setupBoard *)
 Lemma setup_fen_of p : fpos_wf p = true ->
-  exists F, fen_of_opt p = Some F /\ setup F = Ok (renorm p).
+  exists F, fen_of_opt p = Some F /\ setup F = Ok p.
 Proof.
   intros Hwf. apply fpos_wf_inv in Hwf.
   destruct Hwf as (Hl & Hc & Hk1 & Hk9 & Hs & Hcr & Hep & Hh & Hn & Hpar & Hchk).
+  unfold max_move_number, two63 in *.
   destruct (board_roundtrip (f_board p) Hl Hc) as (bs & Hbs & Hb & Hne & Hloop).
   destruct (cr_field_out (f_cr p) Hcr) as [Hcrf Hcrn].
   destruct (ep_field_out p Hl Hep) as [Hepf Hepn].
@@ -728,7 +737,7 @@ Proof.
   destruct Hside as (ss & Hss & Hsf & Hsn).
   unfold fen_of_opt. rewrite Hbs, Hss. eexists. split; [reflexivity|].
   set (hs := itoa (f_hmc p)). set (ms := itoa (move_number (f_nhm p))).
-  assert (Hhn : nosp hs = true) by (apply itoa_nosp; unfold in_int64 in Hh; lia).
+  assert (Hhn : nosp hs = true) by (apply itoa_nosp; unfold two63; lia).
   assert (Hmn : nosp ms = true).
   { apply itoa_nosp. pose proof (move_number_range (f_nhm p)) as H. unfold in_int64 in H. lia. }
   assert (Hbn : nosp bs = true).
@@ -755,9 +764,17 @@ Proof.
   (* the fields *)
   unfold setup_rest. cbn [nth_error]. rewrite Hsf, Hcrf, Hepf.
   unfold hmc_field, mn_field. unfold hs, ms.
-  rewrite (atoi_itoa _ Hh), (atoi_itoa _ (move_number_range _)).
+  assert (Hi : in_int64 (f_hmc p) = true) by (unfold in_int64, two63; lia).
+  rewrite (atoi_itoa _ Hi), (atoi_itoa _ (move_number_range _)).
+  replace (f_hmc p <? 0)%Z with false by lia.
+  assert (Hm : move_number (f_nhm p) = ((f_nhm p + 1) / 2)%Z).
+  { unfold move_number, wrap64, two63, two64. lia. }
+  rewrite Hm. unfold max_move_number.
+  replace (((f_nhm p + 1) / 2 <? 0)%Z || (1000000 <? (f_nhm p + 1) / 2)%Z) with false by lia.
+  replace ((f_nhm p + 1) / 2 =? 0)%Z with false by lia.
+  replace (2 * ((f_nhm p + 1) / 2) - (1 - Z.of_N (f_side p)))%Z with (f_nhm p) by lia.
   unfold not_in_check in Hchk. apply negb_true_iff in Hchk. rewrite Hchk.
-  reflexivity.
+  destruct p; reflexivity.
 Qed.
 
 Theorem fen_of_total : forall p, fpos_wf p = true -> fen_of_opt p = Some (fen_of p).
@@ -765,78 +782,31 @@ Proof.
   intros p H. destruct (setup_fen_of p H) as (F & HF & _). unfold fen_of. now rewrite HF.
 Qed.
 
-(** [fen_reparse_weak]: fen() of a well-formed position is accepted again; the position is the
-    same except possibly for nextHalfMoveNumber *)
-Theorem fen_reparse_weak : forall p, fpos_wf p = true -> setup (fen_of p) = Ok (renorm p).
+(** [fen_reparse_wf]: fen() of a well-formed position is accepted again and gives the same position *)
+Theorem fen_reparse_wf : forall p, fpos_wf p = true -> setup (fen_of p) = Ok p.
 Proof.
   intros p H. destruct (setup_fen_of p H) as (F & HF & HS). unfold fen_of. now rewrite HF.
 Qed.
 
-Lemma fpos_eta p q : f_board p = f_board q -> f_side p = f_side q -> f_cr p = f_cr q -> f_ep p = f_ep q ->
-  f_hmc p = f_hmc q -> f_nhm p = f_nhm q -> p = q.
-Proof. destruct p, q; cbn; intros; subst; reflexivity. Qed.
+(** [fen_reparse]: for EVERY accepted string, the FEN output of the position parses back to the
+    same position (board, side, rights, en-passant square, both clocks).
+    History: before the engine commit "FEN setup rejects negative clocks and absurd move numbers"
+    this was false (the model then had  fen_reparse_refuted : "4k3/8/8/8/8/8/8/4K3 b - - 0 -1"
+    was accepted with nextHalfMoveNumber -2, printed move number 0, read back as ply 2; also
+    move number -2^63 with White to move); the exact guard then was
+    [if side = White then nhm <> -1 else 0 < nhm]. *)
+Theorem fen_reparse : forall s p, setup s = Ok p -> setup (fen_of p) = Ok p.
+Proof. intros s p H. apply fen_reparse_wf. eapply fen_wellformed; eauto. Qed.
 
-Lemma renorm_guard p : fpos_wf p = true -> (renorm p = p <-> reparse_guard p = true).
-Proof.
-  intros Hwf. apply fpos_wf_inv in Hwf.
-  destruct Hwf as (_ & _ & _ & _ & Hs & _ & _ & _ & Hn & Hpar & _).
-  unfold in_int64, two63 in Hn. unfold reparse_guard.
-  assert (Hnhm : f_nhm (renorm p) = f_nhm p <-> (if f_side p =? 0 then negb (f_nhm p =? -1)%Z else (0 <? f_nhm p)%Z) = true).
-  { unfold renorm. cbn [f_nhm]. unfold move_number, wrap64, two63, two64.
-    assert (f_side p = 0 \/ f_side p = 1) as [E|E] by lia; rewrite E; cbn [N.eqb Z.of_N].
-    - destruct (((f_nhm p + 1 + 9223372036854775808) mod 18446744073709551616 - 9223372036854775808) ÷ 2 =? 0)%Z eqn:E0; lia.
-    - destruct (((f_nhm p + 1 + 9223372036854775808) mod 18446744073709551616 - 9223372036854775808) ÷ 2 =? 0)%Z eqn:E0; lia. }
-  rewrite <- Hnhm. split; [intros ->; reflexivity|]. intros E. apply fpos_eta; try reflexivity. exact E.
-Qed.
+(* the printed string is a fixed point of print-after-parse *)
+Corollary fen_print_stable : forall s p, setup s = Ok p ->
+  exists p', setup (fen_of p) = Ok p' /\ fen_of p' = fen_of p.
+Proof. intros s p H. exists p. split; [eapply fen_reparse; eauto|reflexivity]. Qed.
 
-(** [fen_reparse]: the FEN output of an accepted position parses back to the same position *)
-Theorem fen_reparse : forall s p, setup s = Ok p -> reparse_guard p = true -> setup (fen_of p) = Ok p.
-Proof.
-  intros s p H G. apply fen_wellformed in H. rewrite (fen_reparse_weak p H).
-  f_equal. now apply renorm_guard.
-Qed.
-
-(** the guard is exactly what is needed *)
-Theorem fen_reparse_guard_necessary : forall s p, setup s = Ok p -> setup (fen_of p) = Ok p -> reparse_guard p = true.
-Proof.
-  intros s p H E. apply fen_wellformed in H. rewrite (fen_reparse_weak p H) in E.
-  apply renorm_guard; [assumption|]. congruence.
-Qed.
-
-(** simple sufficient condition: a positive nextHalfMoveNumber (any FEN whose move number field
-    is between 1 and 2^62-1, or absent) *)
-Corollary fen_reparse_positive : forall s p, setup s = Ok p -> (0 < f_nhm p)%Z -> setup (fen_of p) = Ok p.
-Proof.
-  intros s p H Hpos. apply (fen_reparse s p H). unfold reparse_guard. destruct (f_side p =? 0); lia.
-Qed.
-
-(* the literal statement (no guard) is false: "4k3/8/8/8/8/8/8/4K3 b - - 0 -1" is accepted with
-   nextHalfMoveNumber = -2, fen() prints move number 0, which is read back as move 1 (ply 2) *)
-Definition neg_move_number_fen : str :=
-  [52;107;51;47;56;47;56;47;56;47;56;47;56;47;56;47;52;75;51;32;98;32;45;32;45;32;48;32;45;49].
-Theorem fen_reparse_refuted : exists s p, setup s = Ok p /\ setup (fen_of p) <> Ok p.
-Proof.
-  exists neg_move_number_fen. eexists. split; [vm_compute; reflexivity|]. vm_compute. discriminate.
-Qed.
-Example fen_reparse_refuted_values :
-  match setup neg_move_number_fen with
-  | Ok p => f_nhm p = (-2)%Z /\ fen_of p = [52;107;51;47;56;47;56;47;56;47;56;47;56;47;56;47;52;75;51;32;98;32;45;32;45;32;48;32;48]
-            /\ (match setup (fen_of p) with Ok p' => f_nhm p' = 2%Z | _ => False end)
-  | _ => False end.
-Proof. vm_compute. repeat split. Qed.
-(* the board, side, castling, en passant and half move clock always survive: *)
-Corollary fen_reparse_fields : forall s p, setup s = Ok p ->
-  exists p', setup (fen_of p) = Ok p' /\ f_board p' = f_board p /\ f_side p' = f_side p /\ f_cr p' = f_cr p /\
-             f_ep p' = f_ep p /\ f_hmc p' = f_hmc p.
-Proof.
-  intros s p H. apply fen_wellformed in H. exists (renorm p). split; [now apply fen_reparse_weak|].
-  repeat split.
-Qed.
-
-(* non-vacuity of fen_reparse: negative half move clock, '|' as side, missing fields *)
+(* non-vacuity of fen_reparse: huge half move clock, '|' as side, an empty castling field, signs *)
 Example fen_reparse_ex1 :
-  let s := [52;107;51;47;56;47;56;47;56;47;56;47;56;47;56;47;52;75;51;32;124;32;32;45;32;45;53;32;43;55] in
-  exists p, setup s = Ok p /\ reparse_guard p = true /\ f_hmc p = (-5)%Z /\ f_nhm p = 13%Z.
+  let s := [52;107;51;47;56;47;56;47;56;47;56;47;56;47;56;47;52;75;51;32;124;32;32;45;32;43;57;50;50;51;51;55;50;48;51;54;56;53;52;55;55;53;56;48;55;32;43;55] in
+  exists p, setup s = Ok p /\ f_hmc p = 9223372036854775807%Z /\ f_nhm p = 13%Z /\ setup (fen_of p) = Ok p.
 Proof. eexists. split; [vm_compute; reflexivity|]. repeat split. Qed.
 
 (** ** every legal position's FEN round-trips exactly *)
@@ -974,7 +944,7 @@ Proof.
   repeat split; assumption.
 Qed.
 
-Lemma rep_wf q : legal_pos q = true -> hmc q < 9223372036854775808 -> fmn q < 4611686018427387904 ->
+Lemma rep_wf q : legal_pos q = true -> hmc q < 9223372036854775808 -> 1 <= fmn q <= 1000000 ->
   fpos_wf (rep q) = true.
 Proof.
   intros Hlegal Hh Hf.
@@ -1012,9 +982,11 @@ Proof.
       change (mk_piece (flip 1) PAWN) with 2 in Hpawn. change (8 * (1 - 1) + 2) with 2.
       replace (ep q <? 64) with true by lia. rewrite Hrank, Hempty, Hpawn. reflexivity. }
   rewrite Hepwf. cbn [andb].
-  assert (Hi1 : in_int64 (Z.of_N (hmc q)) = true) by (unfold in_int64, two63; lia).
-  assert (Hi2 : in_int64 (2 * Z.of_N (fmn q) - (1 - Z.of_N (stm q))) = true) by (unfold in_int64, two63; lia).
-  rewrite Hi1, Hi2.
+  unfold two63, max_move_number.
+  replace (0 <=? Z.of_N (hmc q))%Z with true by lia.
+  replace (Z.of_N (hmc q) <? 9223372036854775808)%Z with true by lia.
+  replace (1 <=? 2 * Z.of_N (fmn q) - (1 - Z.of_N (stm q)))%Z with true by lia.
+  replace (2 * Z.of_N (fmn q) - (1 - Z.of_N (stm q)) <=? 2 * 1000000)%Z with true by lia.
   replace ((2 * Z.of_N (fmn q) - (1 - Z.of_N (stm q)) + Z.of_N (stm q)) mod 2 =? 1)%Z with true by lia.
   cbn [andb].
   (* the side which has just moved is not in check *)
@@ -1027,17 +999,19 @@ Proof.
   destruct (N.eqb_spec (king_sq (brd q) (1 - stm q)) ps) as [E|E]; [|reflexivity].
   unfold piece_at. cbn [brd]. rewrite <- E.
   assert (Hk : at_ (brd q) (king_sq (brd q) (1 - stm q)) = mk_piece (1 - stm q) KING).
-  { apply king_sq_at. destruct Hs01 as [Es|Es]; rewrite Es; assumption. }
+  { apply king_sq_at. destruct Hs01 as [Es|Es]; rewrite Es.
+    - change (1 - 0) with BLACK. exact Hkb.
+    - change (1 - 1) with WHITE. exact Hkw. }
   rewrite Hk. unfold mk_piece, flip, KING, PAWN.
   replace (8 * (1 - stm q) + 1 =? 8 * (1 - stm q) + 2) with false by lia. reflexivity.
 Qed.
 
-Lemma fen_of_rep q : legal_pos q = true -> hmc q < 9223372036854775808 -> 1 <= fmn q < 4611686018427387904 ->
+Lemma fen_of_rep q : legal_pos q = true -> hmc q < 9223372036854775808 -> 1 <= fmn q <= 1000000 ->
   fen_of (rep q) = print q.
 Proof.
   intros Hlegal Hh Hf.
   destruct (legal_pos_parts q Hlegal) as (Hl & _ & _ & _ & Hs & _).
-  pose proof (rep_wf q Hlegal Hh ltac:(lia)) as Hwf.
+  pose proof (rep_wf q Hlegal Hh Hf) as Hwf.
   pose proof (fpos_wf_inv _ Hwf) as (_ & Hcells & _).
   unfold fen_of, fen_of_opt, print, rep in *. cbn [f_board f_side f_cr f_ep f_hmc f_nhm] in *.
   rewrite board_out_str by assumption.
@@ -1051,7 +1025,7 @@ Proof.
   reflexivity.
 Qed.
 
-Lemma abs_rep q : 1 <= fmn q < 4611686018427387904 -> stm q < 2 -> abs (rep q) = q.
+Lemma abs_rep q : 1 <= fmn q <= 1000000 -> stm q < 2 -> abs (rep q) = q.
 Proof.
   intros Hf Hs. destruct q as [b s c e h f]. unfold abs, rep. cbn [f_board f_side f_cr f_ep f_hmc f_nhm brd stm cr ep hmc fmn] in *.
   f_equal; [apply N2Z.id|]. unfold move_number, wrap64, two63, two64. lia.
@@ -1061,27 +1035,27 @@ Qed.
     engine) the specification FEN is accepted, the position built is the one described, and the
     engine prints the very same string. *)
 Theorem fen_roundtrip_legal : forall q, legal_pos q = true ->
-  hmc q < 2 ^ 63 -> 1 <= fmn q < 2 ^ 62 ->
+  hmc q < 2 ^ 63 -> 1 <= fmn q <= 1000000 ->
   exists p, setup (print q) = Ok p /\ abs p = q /\ fen_of p = print q.
 Proof.
-  intros q Hlegal Hh Hf. change (2 ^ 63) with 9223372036854775808 in Hh. change (2 ^ 62) with 4611686018427387904 in Hf.
+  intros q Hlegal Hh Hf. change (2 ^ 63) with 9223372036854775808 in Hh.
   exists (rep q).
-  pose proof (rep_wf q Hlegal Hh ltac:(lia)) as Hwf.
+  pose proof (rep_wf q Hlegal Hh Hf) as Hwf.
   pose proof (fen_of_rep q Hlegal Hh Hf) as Hfen.
   destruct (legal_pos_parts q Hlegal) as (_ & _ & _ & _ & Hs & _).
   split; [|split; [now apply abs_rep|exact Hfen]].
-  rewrite <- Hfen, (fen_reparse_weak _ Hwf). f_equal. apply renorm_guard; [assumption|].
-  unfold reparse_guard, rep. cbn [f_side f_nhm]. destruct (stm q =? 0) eqn:E; lia.
+  rewrite <- Hfen. now apply fen_reparse_wf.
 Qed.
 
 (* non-vacuity: the start position and a position with an en-passant square *)
-Example fen_roundtrip_legal_start : legal_pos start_pos = true /\ hmc start_pos < 2 ^ 63 /\ 1 <= fmn start_pos < 2 ^ 62.
+Example fen_roundtrip_legal_start : legal_pos start_pos = true /\ hmc start_pos < 2 ^ 63 /\ 1 <= fmn start_pos <= 1000000.
 Proof. split; [vm_compute; reflexivity|]. cbn. lia. Qed.
 Example fen_roundtrip_legal_ep :
   let q := make start_pos (mkmv 12 28 0 3) in
   legal_pos q = true /\ ep q = 20 /\ setup (print q) = Ok (rep q) /\ fen_of (rep q) = print q.
 Proof. cbv zeta. repeat split; vm_compute; reflexivity. Qed.
-(* the lower bound on the move number is needed: FEN move number 0 is read as 1 *)
+(* the bounds on the move number are needed: FEN move number 0 is read as 1 (and move numbers
+   above 1000000 are rejected) *)
 Example fen_roundtrip_fmn0 :
   let q := mkpos start_board 0 15 64 0 0 in
   legal_pos q = true /\ exists p, setup (print q) = Ok p /\ fen_of p <> print q.
@@ -1089,8 +1063,6 @@ Proof. cbv zeta. split; [vm_compute; reflexivity|]. eexists. split; [vm_compute;
 
 Print Assumptions fen_total.
 Print Assumptions fen_wellformed.
-Print Assumptions fen_reparse_weak.
+Print Assumptions fen_reparse_wf.
 Print Assumptions fen_reparse.
-Print Assumptions fen_reparse_guard_necessary.
-Print Assumptions fen_reparse_refuted.
 Print Assumptions fen_roundtrip_legal.
